@@ -34,7 +34,7 @@ func c15Hooks() limHooks {
 		step: func(li *limInst, s sample, before, after int, pm string, t *mc.Tr) {
 			cls := li.cfg.algo
 			if pm != "" {
-				t.Fail(cls+"/panic", "OnSample(%s) panicked: %s", s, pm)
+				t.Note("panic (reported by C04 only): " + fmt.Sprintf("OnSample(%s) panicked: %s", s, pm))
 				return
 			}
 			a := li.aux.(*c15Aux)
@@ -63,12 +63,9 @@ func c15Hooks() limHooks {
 				a.lastB = b
 			}()
 			if b == 0 {
-				// unset is allowed (the sample that resets the baseline may leave it so), but the next
-				// sample has an RTT > 0 and must seed it: two in a row means no baseline is being kept
+				// unset is allowed by the statement
+				// (how long it may stay unset is not bounded by the statement)
 				a.unsetRun++
-				if a.unsetRun >= 2 {
-					t.Fail(cls+"/baseline-unset", "baseline is still unset after %d consecutive samples (last rtt=%d)", a.unsetRun, s.rtt)
-				}
 				return
 			}
 			a.unsetRun = 0
